@@ -280,6 +280,8 @@ class Executor:
                 return StubV("%s.%s" % (owner.__name__, obj.__name__))
             mod = getattr(obj, "__module__", None) or "builtins"
             return StubV(("%s.%s" % (mod, obj.__name__)) if mod != "builtins" else obj.__name__)
+        if isinstance(obj, types.MethodType):
+            return StubV("%s.%s" % (type(obj.__self__).__name__, obj.__name__))
         if isinstance(obj, (set, frozenset, dict, list)):
             try:
                 return PyConst(obj)
